@@ -179,10 +179,15 @@ class Bare:
     same calls.  It is the documented meaning of the wrappers ("missing labels are ignored", partial_fit "partially
     fits the estimator"); its predictions go into the trace (`base`) and TLC compares them with the wrapper's."""
 
-    def __init__(self, est, task):
+    def __init__(self, est, task, pretrained=False):
+        import copy
+
         from sklearn.base import clone
 
-        self.proto, self.task = clone(est), task
+        # pretrained: the wrapped estimator was fitted by the caller; partial_fit continues from that state and the
+        # reference is compared from the first successful training call on
+        self.pretrained = pretrained
+        self.proto, self.task = (copy.deepcopy(est) if pretrained else clone(est)), task
         self.obj, self.ok, self.dead = None, False, False
 
     def step(self, op, X, y, w, use_weights):
@@ -191,7 +196,12 @@ class Bare:
 
         lab = ~np.isnan(np.asarray(y, dtype=float))
         if op == "Fit" or self.obj is None:
-            self.obj, self.ok, self.dead = clone(self.proto), False, False
+            import copy
+
+            # (the wrapper starts every fit from a deep copy of its estimator parameter: a fit without labels leaves
+            #  that copy - for a pretrained estimator the pretrained state - to a later partial_fit)
+            self.obj = copy.deepcopy(self.proto) if self.pretrained else clone(self.proto)
+            self.ok, self.dead = False, False
         if self.dead or not lab.any():
             return
         kw = {}
@@ -427,6 +437,19 @@ def _pair_job(arg):
                 stages.append(int(r))
             calls[-1]["labels_revealed_before_in_row_order"] = stages
             calls[-1]["stages_fitted_on"] = "the same estimator object" if prelude == 2 else "throw-away clones"
+        if prelude == 3 and k == 0 and len(D) >= 2:
+            # a pool buffer that is re-ordered IN PLACE: the observed object was fitted before on the very same
+            # array objects while their rows stood in reverse order; then the rows are put back and the observed
+            # fit follows (a model must be trained on what the arrays hold now, not on what they held before)
+            try:
+                X[:] = X[::-1].copy()
+                y_rev = np.array(sent(y))[::-1].copy()
+                train(obj, "Fit", X, y_rev, None if w is None else np.array(w)[::-1].copy(), use_w)
+            except Exception:
+                pass
+            finally:
+                X[:] = X[::-1].copy()
+            calls[-1]["fitted_before_on_the_same_X_array_with_rows_reversed_in_place"] = True
         try:
             train(obj, "Fit", X, sent(y), w, use_w)
             n_eval += 1
@@ -534,7 +557,7 @@ def main(tier="quick", seed=0):
                 d, e = lst[int(j)]
                 ones_none = bool(_all_ones(d, e) and rng.rand() < 0.5)
                 jobs.append((ci, d, e, int(rng.randint(0, 4) + 10 * seed), bool(rng.rand() < 0.5), ones_none,
-                             int(rng.choice([0, 0, 0, 1, 2]))))
+                             int(rng.choice([0, 0, 0, 1, 2, 3]))))
     jobs = [jobs[int(j)] for j in rng.permutation(len(jobs))]   # spread slow estimators over the workers
     out = pmap(_pair_job, jobs)
     traces = []
